@@ -1,11 +1,11 @@
 \* thorough: two futures, two wakers each, longer horizon
 CONSTANTS
   N = 2
-  Deadlines = {0, 1, 2, 3, 4}
+  Deadlines = {0, 1, 2, 3}
   Periods = {1, 2}
   Kinds = {"sleep", "timeout", "interval"}
   NW = 2
-  MaxNow = 5
+  MaxNow = 4
   MaxGen = 4
   Mut = "none"
 SPECIFICATION Spec
